@@ -979,6 +979,10 @@ class RoundGen:
             rnode = dom.nodes[rp]
             ref = {"src": src, "query": rp}
         typ = rnode["type"] if rnode else "float"
+        if typ == "mod":
+            # untyped line of a modification file: the host decides the type
+            typ = "float" if rnode["unit"] is not None or not isinstance(rnode["value"], int) \
+                else rng.choice(["int", "float"])
         # host: new typed node, or an existing node of the same type
         hosts = [p for p, n in self.g.nodes.items()
                  if n["type"] == typ and not n["constant"] and n["dims"] is None
@@ -1469,6 +1473,20 @@ class DipStoreMachine(Machine):
             path = rng.choice(sorted(self.files))      # replace content
         else:
             path = f"{ROOT}f{n + 1}" + (".dip" if rng.random() < 0.7 else ".txt")
+        if path.endswith(".dip") and rng.random() < 0.15:
+            # a file of modifications only (the documented way of keeping run settings apart):
+            # as a source its lines are untyped values that references pick up with their unit
+            stmts = []
+            for nm in rng.sample(["box.size", "box.count", "run.steps", "dt", "limit"],
+                                 rng.randint(1, 3)):
+                if rng.random() < 0.6:
+                    u = rng.choice(["m", "km", "cm", "s", "ms", "g", "kg"])
+                    stmts.append({"k": "mod", "indent": 0, "name": nm,
+                                  "value": rng.choice([5000.0, 2.5, 300.0, 12.0, 0.5]), "unit": u})
+                else:
+                    stmts.append({"k": "mod", "indent": 0, "name": nm,
+                                  "value": rng.choice([3, 40, 7]), "unit": None})
+            return {"op": "write_file", "path": path, "kind": "dip", "stmts": stmts}
         if path.endswith(".dip"):
             model = DM.Env()
             gen = RoundGen(self, rng, model, {})
